@@ -2,6 +2,8 @@ package main
 
 import (
 	"go/ast"
+	"os"
+	"path/filepath"
 	"strings"
 )
 
@@ -51,14 +53,61 @@ func c08Track(fs *Facts) {
 				}
 			}
 		}
-		if fd := f.Func("swamp", "deleteHandler"); fd != nil {
-			c07Canon(fd, []string{"s", "key", "shadowDelete", "deletedTreasure", "treasureObj", "guardID", "clonedTreasure"})
-			t := c08TopLevel(f, fd.Body, "s.notifyBucketsDelete(key)")
-			if t == Yes && !c07InOrder(f.Str(fd.Body), "s.beaconKey.Delete(key)", "s.notifyBucketsDelete(key)") {
-				t = Unknown
+		// every function that takes a record out of beaconKey tells the buckets afterwards, at the same block level
+		// (deleteHandler itself, or the function it delegates to)
+		verdict, at := Unknown, ""
+		for _, d := range f.AST.Decls {
+			fd, ok := d.(*ast.FuncDecl)
+			if !ok || fd.Body == nil || !f.Contains(fd.Body, "s.beaconKey.Delete(") {
+				continue
 			}
-			fs.Tri("bucketNotifyDelete", t, c08At(swampGo, f, fd))
+			del, told, keyArg := -1, -1, ""
+			for n, st := range fd.Body.List {
+				src := f.Str(st)
+				if strings.HasPrefix(src, "s.beaconKey.Delete(") && strings.HasSuffix(src, ")") && del < 0 {
+					del, keyArg = n, src[len("s.beaconKey.Delete("):len(src)-1]
+				}
+				if del >= 0 && src == "s.notifyBucketsDelete("+keyArg+")" {
+					told = n
+				}
+			}
+			one := Unknown
+			switch {
+			case del >= 0 && told > del:
+				one = Yes
+			case del >= 0 && !f.Contains(fd.Body, "notifyBucketsDelete"):
+				one = No
+			}
+			if at == "" || one != Yes {
+				at = c08At(swampGo, f, fd)
+			}
+			if verdict == Unknown && at != "" && one == Yes && told >= 0 {
+				verdict = Yes
+			}
+			if one != Yes {
+				verdict = one
+				break
+			}
 		}
+		// deleteHandler must be (or reach) such a function
+		if dh := f.Func("swamp", "deleteHandler"); dh == nil || !(f.Contains(dh.Body, "s.beaconKey.Delete(") || f.Contains(dh.Body, "s.deleteHandlerIf(key, shadowDelete, nil)")) {
+			verdict = Unknown
+		}
+		// …and swamp.go is the only file of the package that takes records out of beaconKey
+		if ents, err := os.ReadDir(filepath.Join(repoRoot, "app/core/hydra/swamp")); err != nil {
+			verdict = Unknown
+		} else {
+			for _, e := range ents {
+				nm := e.Name()
+				if e.IsDir() || !strings.HasSuffix(nm, ".go") || strings.HasSuffix(nm, "_test.go") || nm == "swamp.go" {
+					continue
+				}
+				if src, err := os.ReadFile(filepath.Join(repoRoot, "app/core/hydra/swamp", nm)); err != nil || strings.Contains(string(src), "beaconKey.Delete(") {
+					verdict = Unknown
+				}
+			}
+		}
+		fs.Tri("bucketNotifyDelete", verdict, at)
 	}
 	std := true
 	fb, err := Load(c08Bucket)
